@@ -124,6 +124,9 @@ func (t *termer) Term(v ssa.Value) string {
 	case *ssa.FreeVar:
 		return "$free:" + x.Name()
 	case *ssa.MakeSlice:
+		if k, ok := intConst(x.Len); ok && k == 0 {
+			return `""` // empty, whatever its capacity
+		}
 		return t.filledBy(x)
 	case *ssa.Convert:
 		return t.Term(x.X)
@@ -252,8 +255,9 @@ func (t *termer) allocTerm(a *ssa.Alloc, load ssa.Instruction) string {
 		return t.accumAt(a, at)
 	}
 	type writer struct {
-		in   ssa.Instruction
-		term func() string
+		in      ssa.Instruction
+		term    func() string
+		unknown string // non-empty: something that may write the object in a way that is not modelled
 	}
 	var ws []writer
 	var scan func(v ssa.Value, lo string)
@@ -263,7 +267,7 @@ func (t *termer) allocTerm(a *ssa.Alloc, load ssa.Instruction) string {
 			case *ssa.Store:
 				if x.Addr == v {
 					x := x
-					ws = append(ws, writer{x, func() string { return t.Term(x.Val) }})
+					ws = append(ws, writer{in: x, term: func() string { return t.Term(x.Val) }})
 				}
 			case *ssa.Slice:
 				l := lo
@@ -271,12 +275,18 @@ func (t *termer) allocTerm(a *ssa.Alloc, load ssa.Instruction) string {
 					l = t.scalar(x.Low)
 				}
 				scan(x, l)
+			case *ssa.IndexAddr:
+				for _, rr := range *x.Referrers() {
+					if st, ok := rr.(*ssa.Store); ok && st.Addr == ssa.Value(x) {
+						ws = append(ws, writer{in: st, unknown: "element store"})
+					}
+				}
 			case *ssa.Call:
 				cm := x.Common()
 				id := t.p.CalleeID(cm)
 				switch {
 				case id == "builtin:copy" && cm.Args[0] == v:
-					ws = append(ws, writer{x, func() string {
+					ws = append(ws, writer{in: x, term: func() string {
 						src := t.Term(cm.Args[1])
 						if lo == "0" || lo == "" {
 							return src
@@ -284,19 +294,52 @@ func (t *termer) allocTerm(a *ssa.Alloc, load ssa.Instruction) string {
 						return "at(" + lo + "," + src + ")"
 					}})
 				case (id == "golang.org/x/crypto/curve25519.ScalarMult") && cm.Args[0] == v:
-					ws = append(ws, writer{x, func() string { return "X25519(" + t.Term(cm.Args[1]) + "," + t.Term(cm.Args[2]) + ")" }})
+					ws = append(ws, writer{in: x, term: func() string { return "X25519(" + t.Term(cm.Args[1]) + "," + t.Term(cm.Args[2]) + ")" }})
 				case (id == "golang.org/x/crypto/curve25519.ScalarBaseMult") && cm.Args[0] == v:
-					ws = append(ws, writer{x, func() string { return "X25519base(" + t.Term(cm.Args[1]) + ")" }})
+					ws = append(ws, writer{in: x, term: func() string { return "X25519base(" + t.Term(cm.Args[1]) + ")" }})
 				case (id == "io.ReadFull" || id == "io.ReadAtLeast") && t.p.isReadFull(x) && cm.Args[1] == v:
-					ws = append(ws, writer{x, func() string { return "read(" + t.Term(cm.Args[0]) + ")" }})
+					ws = append(ws, writer{in: x, term: func() string { return "read(" + t.Term(cm.Args[0]) + ")" }})
 				case id == M("$M/common/csrand.Bytes") && cm.Args[0] == v:
-					ws = append(ws, writer{x, func() string { return "random" }})
+					ws = append(ws, writer{in: x, term: func() string { return "random" }})
+				default:
+					// h.Sum(arr[:0]) appends the digest into the array's storage from offset 0
+					if rv, m, args := recvOf(x); rv != nil && m == "Sum" && len(args) == 1 && args[0] == v {
+						sl, isSl := v.(*ssa.Slice)
+						hiZero := false
+						if isSl && sl.High != nil {
+							k, ok := intConst(sl.High)
+							hiZero = ok && k == 0
+						}
+						n, okN := constLen(a.Type())
+						if hiZero && (lo == "0" || lo == "") && okN && n == int64(t.p.hashSize(rv)) {
+							ws = append(ws, writer{in: x, term: func() string { return t.callTerm(x, -1) }})
+						} else {
+							ws = append(ws, writer{in: x, unknown: "Sum into part of the object"})
+						}
+						continue
+					}
+					for ai, arg := range cm.Args {
+						if arg == v && t.p.callMayWriteArg(x, ai, 0) {
+							ws = append(ws, writer{in: x, unknown: "passed to " + id})
+						}
+					}
 				}
 			}
 		}
 	}
 	scan(a, "0")
-	if len(ws) == 0 {
+	known := 0
+	for _, w := range ws {
+		if w.unknown == "" {
+			known++
+		}
+	}
+	if known == 0 {
+		for _, w := range ws {
+			if at == nil || w.in == at || canReachWithout(w.in, at, nil) || instrDominates(w.in, at) {
+				return t.fail("local object at %s: %s at %s is not modelled", t.p.Pos(a.Pos()), w.unknown, t.p.InstrPos(w.in))
+			}
+		}
 		if l, ok := constLen(a.Type()); ok {
 			return fmt.Sprintf("zeros(%d)", l)
 		}
@@ -306,7 +349,7 @@ func (t *termer) allocTerm(a *ssa.Alloc, load ssa.Instruction) string {
 	var best *writer
 	for i := range ws {
 		w := &ws[i]
-		if at != nil && !instrDominates(w.in, at) {
+		if w.unknown != "" || at != nil && !instrDominates(w.in, at) {
 			continue
 		}
 		if best == nil || instrDominates(best.in, w.in) {
@@ -316,10 +359,116 @@ func (t *termer) allocTerm(a *ssa.Alloc, load ssa.Instruction) string {
 	if best == nil {
 		return t.fail("no writer of the local object at %s dominates its use", t.p.Pos(a.Pos()))
 	}
+	// anything that may write the object after the writer taken and before the use
+	for i := range ws {
+		w := &ws[i]
+		if w == best || w.in == at || instrDominates(w.in, best.in) {
+			continue
+		}
+		if at != nil && !(instrDominates(w.in, at) || canReachWithout(w.in, at, nil)) {
+			continue
+		}
+		if w.unknown != "" {
+			return t.fail("local object at %s: %s at %s after the write at %s is not modelled", t.p.Pos(a.Pos()), w.unknown, t.p.InstrPos(w.in), t.p.InstrPos(best.in))
+		}
+		if at != nil && !instrDominates(w.in, at) {
+			return t.fail("local object at %s: the write at %s may or may not happen before the use", t.p.Pos(a.Pos()), t.p.InstrPos(w.in))
+		}
+	}
 	saved := t.at
 	t.at = best.in
 	defer func() { t.at = saved }()
 	return best.term()
+}
+
+// hashSize: digest length of a hash.Hash value where its constructor is visible (0 otherwise).
+func (p *Prog) hashSize(h ssa.Value) int {
+	t := p.newTermer()
+	name := t.hashName(h)
+	switch {
+	case strings.HasPrefix(name, "hmac-sha256"), strings.HasPrefix(name, "sha256"):
+		return 32
+	case strings.HasPrefix(name, "hmac-sha512"), strings.HasPrefix(name, "sha512"):
+		return 64
+	case strings.HasPrefix(name, "hmac-sha1"), strings.HasPrefix(name, "sha1"):
+		return 20
+	}
+	return 0
+}
+
+// readOnlyCallees never write through their slice / pointer arguments.
+var readOnlyCallees = map[string]bool{
+	"bytes.Equal": true, "crypto/hmac.Equal": true, "crypto/subtle.ConstantTimeCompare": true, "bytes.Index": true, "bytes.NewBuffer": false,
+	"encoding/hex.EncodeToString": true, "encoding/base64.(*Encoding).EncodeToString": true, "(*encoding/base64.Encoding).EncodeToString": true,
+	"builtin:len": true, "builtin:cap": true, "builtin:append": true, "builtin:print": true, "builtin:println": true,
+	"encoding/binary.bigEndian.Uint16": true, "encoding/binary.bigEndian.Uint32": true, "encoding/binary.bigEndian.Uint64": true,
+	"(encoding/binary.bigEndian).Uint16": true, "(encoding/binary.bigEndian).Uint32": true, "(encoding/binary.bigEndian).Uint64": true,
+	"crypto/sha256.Sum256": true, "crypto/sha512.Sum512": true, "crypto/aes.NewCipher": true, "crypto/hmac.New": true, "string": true,
+	"golang.org/x/crypto/curve25519.ScalarMult": true, "golang.org/x/crypto/curve25519.ScalarBaseMult": true, "golang.org/x/crypto/curve25519.X25519": true,
+}
+
+// callMayWriteArg: the call may modify the memory its ai-th argument designates.
+func (p *Prog) callMayWriteArg(call ssa.CallInstruction, ai int, depth int) bool {
+	cm := call.Common()
+	id := p.CalleeID(cm)
+	if id == "builtin:copy" {
+		return ai == 0
+	}
+	if readOnlyCallees[id] {
+		return false
+	}
+	if _, m, _ := recvOf(call); m != "" {
+		off := 0
+		if !cm.IsInvoke() {
+			off = 1
+		}
+		if ai >= off && (accWriteMethods[m] || m == "Equal" || m == "SetBytes" || m == "Seal" && ai-off >= 1 || m == "Open" && ai-off >= 1) {
+			// io.Writer-style methods read their argument (Seal/Open: only the dst argument is written)
+			return false
+		}
+	}
+	if fn := cm.StaticCallee(); fn != nil && p.inModule(fn) && fn.Blocks != nil && depth < 4 {
+		if ai < len(fn.Params) {
+			return p.paramMayBeWritten(fn, fn.Params[ai], depth+1)
+		}
+	}
+	return true
+}
+
+func (p *Prog) paramMayBeWritten(fn *ssa.Function, v ssa.Value, depth int) bool {
+	refs := v.Referrers()
+	if refs == nil {
+		return false
+	}
+	for _, r := range *refs {
+		switch x := r.(type) {
+		case *ssa.Store:
+			if x.Addr == v {
+				return true
+			}
+			if x.Val == v {
+				return true // escapes into memory
+			}
+		case *ssa.Slice, *ssa.IndexAddr, *ssa.FieldAddr, *ssa.Convert, *ssa.ChangeType, *ssa.SliceToArrayPointer:
+			if p.paramMayBeWritten(fn, x.(ssa.Value), depth) {
+				return true
+			}
+		case *ssa.Phi:
+			return true
+		case ssa.CallInstruction:
+			for ai, a := range x.Common().Args {
+				if a == v && p.callMayWriteArg(x, ai, depth) {
+					return true
+				}
+			}
+			if x.Common().IsInvoke() && x.Common().Value == v {
+				return true
+			}
+		case *ssa.MakeInterface, *ssa.MakeClosure:
+			return true
+		}
+	}
+	return false
 }
 
 // accumAt: content of a local bytes.Buffer (by value) at instruction at.
@@ -415,11 +564,19 @@ func (t *termer) callTerm(c *ssa.Call, idx int) string {
 	p := t.p
 	cm := c.Common()
 	id := p.CalleeID(cm)
+	// the arguments have the content they had when the call was made
+	savedAt := t.at
+	t.at = c
+	defer func() { t.at = savedAt }()
 	if cm.IsInvoke() {
 		switch cm.Method.Name() {
 		case "Sum":
 			if len(cm.Args) == 1 && isNilConst(cm.Args[0]) {
 				return t.hashName(cm.Value) + "{" + t.accumContent(c) + "}"
+			}
+			if len(cm.Args) == 1 {
+				// Sum(b) appends the digest to b
+				return catTerms([]string{t.Term(cm.Args[0]), t.hashName(cm.Value) + "{" + t.accumContent(c) + "}"})
 			}
 		}
 		return t.fail("unsupported interface call %s at %s", id, p.InstrPos(c))
